@@ -27,6 +27,12 @@ type LV struct {
 	P       *poly.Poly // nil = not tracked
 	xorOf   [2]Val     // operands when the value was produced by XOR
 	maskBit *poly.Poly // set when the word is 0 or all-ones: the selecting bit
+	// selBit/selXor: the word is mask(selBit) & (selXor[0] ^ selXor[1]) — one half of the branch-free select
+	// a ^ (mask & (a ^ b))
+	selBit *poly.Poly
+	selXor [2]Val
+	// lowZero: the low lowZero bits of the word are known to be zero (it was shifted left by a constant)
+	lowZero uint
 }
 
 type Wide struct {
@@ -409,7 +415,7 @@ func (d *LimbDom) BinOp(in *Interp, op token.Token, x, y Val, xt types.Type, pos
 				if t.P != nil {
 					p = t.P.Scale(pow2(s))
 				}
-				return d.mk(new(big.Int).Lsh(t.Lo, s), new(big.Int).Lsh(t.Hi, s), p)
+				return withLowZero(d.mk(new(big.Int).Lsh(t.Lo, s), new(big.Int).Lsh(t.Hi, s), p), s)
 			}
 		}
 		in.Oblige("no-overflow(<<)", pos, ok, "%s << %d must be < 2^%d", a.Hi, s, bits)
@@ -420,7 +426,7 @@ func (d *LimbDom) BinOp(in *Interp, op token.Token, x, y Val, xt types.Type, pos
 		if a.P != nil {
 			p = a.P.Scale(pow2(s))
 		}
-		return d.mk(new(big.Int).Lsh(a.Lo, s), hi, p)
+		return withLowZero(d.mk(new(big.Int).Lsh(a.Lo, s), hi, p), s+a.lowZero)
 	case token.SHR:
 		k, isC := y.(Int)
 		if !isC {
@@ -429,6 +435,17 @@ func (d *LimbDom) BinOp(in *Interp, op token.Token, x, y Val, xt types.Type, pos
 		s := uint(k.V.Uint64())
 		return d.mk(new(big.Int).Rsh(a.Lo, s), new(big.Int).Rsh(a.Hi, s), d.floorDiv(a.P, s, a.Lo, a.Hi))
 	case token.AND:
+		// (0 or all-ones) & (p ^ q): half of the branch-free select p ^ (mask & (p ^ q))
+		if xl, ok := x.(*LV); ok && xl.maskBit != nil {
+			if yl, ok := y.(*LV); ok && yl.xorOf[0] != nil {
+				return &LV{Lo: big.NewInt(0), Hi: new(big.Int).Set(yl.Hi), selBit: xl.maskBit, selXor: yl.xorOf}
+			}
+		}
+		if yl, ok := y.(*LV); ok && yl.maskBit != nil {
+			if xl, ok := x.(*LV); ok && xl.xorOf[0] != nil {
+				return &LV{Lo: big.NewInt(0), Hi: new(big.Int).Set(xl.Hi), selBit: yl.maskBit, selXor: xl.xorOf}
+			}
+		}
 		// (0 or all-ones) & K = bit·K
 		if m, ok := y.(Int); ok && a.maskBit != nil && m.V.Sign() >= 0 {
 			return d.mk(big.NewInt(0), new(big.Int).Set(m.V), a.maskBit.Scale(m.V))
@@ -454,6 +471,17 @@ func (d *LimbDom) BinOp(in *Interp, op token.Token, x, y Val, xt types.Type, pos
 		if m, ok := x.(Int); ok && m.V.Sign() == 0 {
 			return y
 		}
+		// (p << k) | q with q < 2^k: the operands occupy disjoint bits, so | is +
+		for _, pr := range [][2]*LV{{a, b}, {b, a}} {
+			hiPart, loPart := pr[0], pr[1]
+			if hiPart.lowZero > 0 && loPart.Lo.Sign() >= 0 && loPart.Hi.BitLen() <= int(hiPart.lowZero) {
+				var p *poly.Poly
+				if hiPart.P != nil && loPart.P != nil {
+					p = hiPart.P.Add(loPart.P)
+				}
+				return d.mk(new(big.Int).Add(hiPart.Lo, loPart.Lo), new(big.Int).Add(hiPart.Hi, loPart.Hi), p)
+			}
+		}
 		hi := a.Hi
 		if b.Hi.Cmp(hi) > 0 {
 			hi = b.Hi
@@ -469,6 +497,38 @@ func (d *LimbDom) BinOp(in *Interp, op token.Token, x, y Val, xt types.Type, pos
 		}
 		if m, ok := x.(Int); ok && m.V.Sign() == 0 {
 			return y
+		}
+		// p ^ (mask(c) & (p ^ q)) = p + c·(q − p)
+		for _, pr := range [][2]Val{{x, y}, {y, x}} {
+			sel, ok := pr[1].(*LV)
+			if !ok || sel.selBit == nil {
+				continue
+			}
+			var other Val
+			switch pr[0] {
+			case sel.selXor[0]:
+				other = sel.selXor[1]
+			case sel.selXor[1]:
+				other = sel.selXor[0]
+			default:
+				continue
+			}
+			pl, ol := d.lift(pr[0]), d.lift(other)
+			if pl == nil || ol == nil {
+				continue
+			}
+			lo, hi := pl.Lo, pl.Hi
+			if ol.Lo.Cmp(lo) < 0 {
+				lo = ol.Lo
+			}
+			if ol.Hi.Cmp(hi) > 0 {
+				hi = ol.Hi
+			}
+			var p *poly.Poly
+			if pl.P != nil && ol.P != nil {
+				p = pl.P.Add(sel.selBit.Mul(ol.P.Sub(pl.P)))
+			}
+			return d.mk(lo, hi, p)
 		}
 		// c ^ (c ^ d) = d
 		if lv, ok := y.(*LV); ok && lv.xorOf[0] != nil {
@@ -618,6 +678,15 @@ func (d *LimbDom) wideMod(w *Wide, j uint) Val {
 }
 
 func (d *LimbDom) UnOp(in *Interp, op token.Token, x Val, xt types.Type, pos ssa.Instruction) Val {
+	if op == token.SUB {
+		// -b for a bit b of an unsigned word type: 0 or all-ones (a select mask)
+		if lv, ok := x.(*LV); ok && lv.P != nil && lv.Lo.Sign() >= 0 && lv.Hi.Cmp(big.NewInt(1)) <= 0 {
+			if bits, sgn, ok := intInfo(xt, in.WordBits); ok && !sgn {
+				ones := new(big.Int).Sub(pow2(uint(bits)), big.NewInt(1))
+				return &LV{Lo: big.NewInt(0), Hi: ones, P: lv.P.Scale(ones), maskBit: lv.P}
+			}
+		}
+	}
 	in.Undecided(pos, "limb domain has no transfer function for unary %s on %T", op, x)
 	return nil
 }
@@ -988,4 +1057,13 @@ func (d *LimbDom) flatCall(in *Interp, site ssa.Instruction, fn *ssa.Function, n
 		return nil, true
 	}
 	return nil, false
+}
+
+func withLowZero(v Val, k uint) Val {
+	if lv, ok := v.(*LV); ok {
+		c := *lv
+		c.lowZero = k
+		return &c
+	}
+	return v
 }
